@@ -33,7 +33,7 @@ func isoDate(args ...any) (t any) {
 		case string:
 			t, _ = time.Parse(time.RFC3339Nano, ta)
 		case int64:
-			t = time.Unix(0, ta*1_000_000).UTC()
+			t = time.Unix(ta/1000, (ta%1000)*1_000_000).UTC()
 		}
 	}
 	return
